@@ -245,11 +245,20 @@ _ENC = None
 
 def _check_one(idx):
     enc = _ENC
-    S = enc._S
-    S.push()
-    S.add(enc._viol_terms[idx])
     tq = time.time()
-    r = S.check()
+    mode = os.environ.get('IRSYM_SOLVER', 'smt')
+    if mode == 'inc':
+        S = enc._S
+        S.push()
+        S.add(enc._viol_terms[idx])
+        r = S.check()
+    else:
+        S = z3.Tactic(mode).solver()
+        S.set('timeout', enc._timeout_ms)
+        for c in enc.cons:
+            S.add(c)
+        S.add(enc._viol_terms[idx])
+        r = S.check()
     dt = round(time.time() - tq, 2)
     payload = None
     res = 'unsat'
@@ -260,7 +269,8 @@ def _check_one(idx):
             payload = enc.make_violation(S.model(), enc._spec, enc._scenario, o, u)
     elif r == z3.unknown:
         res = 'unknown'
-    S.pop()
+    if mode == 'inc':
+        S.pop()
     return (idx, res, dt, payload)
 
 
@@ -286,24 +296,20 @@ class Encoding:
         self.leaves = leaves
         self.nthreads = nthreads
         self.events = {}      # id -> Event
-        self.pred = {}        # id -> predecessor event id in its thread (tree parent) or None
         self.by_addr = {}
         self.thread_events = {}
         for t, lv in leaves.items():
             for leaf in lv:
-                prev = None
                 for e in leaf.events:
                     if e.id not in self.events:
                         self.events[e.id] = e
-                        self.pred[e.id] = prev
                         self.thread_events.setdefault(t, []).append(e)
-                    prev = e.id
         self.clk = {}
         self.guard_cache = {}
         self.nvars = 0
         self.nasserts = 0
         self.keep_all = False
-        self.clock_bits = int(os.environ.get('IRSYM_CLOCK_BITS', '12'))
+        self.clock_bits = int(os.environ.get('IRSYM_CLOCK_BITS', '14'))
 
     def g(self, conds):
         key = tuple(id(c) for c in conds)
@@ -336,10 +342,14 @@ class Encoding:
             if e.kind in ('W', 'U', 'C'):
                 writers.setdefault(e.addr, set()).add(e.thread)
         self.contended = set()
+        self.semi = set()      # touched by at most one concurrent thread, and by the final function
         for a, ths in accessors.items():
             w = writers.get(a, set())
             if len(ths) > 1 and w:
-                self.contended.add(a)
+                if len(ths - {0}) >= 2:
+                    self.contended.add(a)
+                else:
+                    self.semi.add(a)
         # sanity: a read flagged local must not be on an address written by another thread
         for e in self.events.values():
             if e.kind in ('R', 'U', 'C') and e.local and e.addr in writers and (writers[e.addr] - {e.thread, 0}):
@@ -352,30 +362,26 @@ class Encoding:
         nth = self.nthreads + 1
         width = self.clock_bits
         self.pos = {}
-        maxpos = {}
-        for t, lv in self.leaves.items():
-            for leaf in lv:
-                k = 0
-                for e in leaf.events:
-                    if relevant(e):
-                        if e.id in self.pos:
-                            assert self.pos[e.id] == k
-                        self.pos[e.id] = k
-                        k += 1
-                maxpos[t] = max(maxpos.get(t, 0), k)
+        used = {}
+        for e in self.events.values():
+            if relevant(e):
+                self.pos[e.id] = e.po
+                used.setdefault(e.thread, set()).add(e.po)
         self.cvar = {}
-        total = sum(maxpos.values()) + 2
-        if width and total * nth >= (1 << width) - 2:
+        total = sum(len(v) for v in used.values()) + 2
+        if width and total * 2 >= (1 << (width - max(1, (nth - 1).bit_length()))) - 2:
             raise Inconclusive('clock width %d too small for %d events' % (width, total))
-        for t, n in maxpos.items():
-            for k in range(n):
+        for t, ks in used.items():
+            prev = None
+            for k in sorted(ks):
                 if width:
                     x = z3.BitVec('x_%d_%d' % (t, k), width)
                 else:
                     x = z3.Int('x_%d_%d' % (t, k))
                 self.cvar[(t, k)] = x
-                if k > 0:
-                    cons.append(z3.ULT(self.cvar[(t, k - 1)], x) if width else self.cvar[(t, k - 1)] < x)
+                if prev is not None:
+                    cons.append(z3.ULT(prev, x) if width else prev < x)
+                prev = x
         self.nvars = len(self.cvar)
         # threads 1..n run concurrently; thread 0 is the final function, after everything else.
         # distinctness across threads: the clock of thread t is n*x + t  (Int) / x with low bits = t (BV)
@@ -405,6 +411,29 @@ class Encoding:
         for e in self.events.values():
             if e.addr in self.contended and e.kind in ('R', 'W', 'U', 'C'):
                 groups.setdefault(e.addr, []).append(e)
+        # cells seen by one concurrent thread only (plus the final function): the final function reads the
+        # last executed write in program order (its own first, then that thread's), no clocks involved
+        semi_groups = {}
+        for e in self.events.values():
+            if e.addr in self.semi and e.kind in ('R', 'W', 'U', 'C'):
+                semi_groups.setdefault(e.addr, []).append(e)
+        for a, evs in semi_groups.items():
+            tws = sorted([e for e in evs if e.thread != 0 and e.kind in ('W', 'U', 'C')], key=lambda e: e.po)
+            fws = sorted([e for e in evs if e.thread == 0 and e.kind in ('W', 'U', 'C')], key=lambda e: e.po)
+            for r in evs:
+                if r.thread != 0 or r.kind not in ('R', 'U', 'C') or r.local:
+                    continue
+                size = r.size
+                initv = self.init_value(r)
+                chain = ex.as_bv(initv, size * 8) if initv is not None else None
+                for w in tws + [w for w in fws if w.po < r.po]:
+                    if w.size != size:
+                        raise Unsupported('mixed-size access at %#x' % a)
+                    wv = ex.as_bv(w.wval, size * 8)
+                    chain = wv if chain is None else z3.If(self.wrote(w), wv, chain)
+                if chain is None:
+                    raise Inconclusive('final function reads %#x which nobody initialised' % a)
+                cons.append(z3.Implies(self.g(r.guard), ex.as_bv(r.rval, size * 8) == chain))
         self.rf_choice = {}
         self.src = {}
         width = self.clock_bits
@@ -417,6 +446,10 @@ class Encoding:
                 r_ = wrote_c[w.id] = self.wrote(w)
                 nwrote_c[w.id] = z3.Not(r_)
             return r_
+
+        def nwrote(w):
+            wrote(w)
+            return nwrote_c[w.id]
         le = (lambda a_, b_: z3.ULE(a_, b_)) if width else (lambda a_, b_: a_ <= b_)
         for a, evs in groups.items():
             ws = [e for e in evs if e.kind in ('W', 'U', 'C')]
@@ -427,30 +460,33 @@ class Encoding:
                 ge = self.g(r.guard)
                 size = r.size
                 rv = ex.as_bv(r.rval, size * 8)
-                own_src = self.own_source(r)
-                if own_src is not None and own_src.size != size:
-                    raise Unsupported('mixed-size own write/read at %#x' % a)
                 others = [w for w in ws if w.thread != r.thread and (w.thread != 0 or r.thread == 0)]
+                owns = sorted([w for w in ws if w.thread == r.thread and w.po < r.po], key=lambda w: w.po)
+                for w in owns:
+                    if w.size != size:
+                        raise Unsupported('mixed-size own write/read at %#x' % a)
                 key = (r.thread, self.pos[r.id])
                 sv = self.src.get(key)
                 if sv is None:
                     sv = self.src[key] = (z3.BitVec('s_%d_%d' % key, width) if width else z3.Int('s_%d_%d' % key))
                 rc = self.clk[r.id]
                 opts = []
-                ownv = self.own_value(r, own_src)
-                if ownv is not None:
-                    if own_src is None:
-                        opts.append(z3.And(sv == 0, rv == ex.as_bv(ownv, size * 8)))
-                    else:
-                        opts.append(z3.And(sv == self.clk[own_src.id], rv == ex.as_bv(ownv, size * 8)))
+                # own thread: the LAST executed own write before r (events of one thread are ordered by po and
+                # those in mutually exclusive branches are never executed together), else the initial value
+                for i, w in enumerate(owns):
+                    later = [nwrote(w2) for w2 in owns[i + 1:] if w2.po > w.po]
+                    opts.append(z3.And(wrote(w), sv == self.clk[w.id], rv == ex.as_bv(w.wval, size * 8), *later))
+                initv = self.init_value(r)
+                if initv is not None:
+                    opts.append(z3.And(sv == 0, rv == ex.as_bv(initv, size * 8), *[nwrote(w2) for w2 in owns]))
                 for w in others:
                     opts.append(z3.And(wrote(w), sv == self.clk[w.id], rv == ex.as_bv(w.wval, size * 8)))
                 body = [z3.Or(*opts) if opts else z3.BoolVal(False), self.lt(sv, rc)]
-                if own_src is not None:
-                    body.append(le(self.clk[own_src.id], sv))
+                # an executed own write before r is never younger than r's source
+                for w in owns:
+                    body.append(z3.Or(nwrote(w), le(self.clk[w.id], sv)))
                 for w in others:
-                    wrote(w)
-                    body.append(z3.Or(nwrote_c[w.id], le(self.clk[w.id], sv), self.lt(rc, self.clk[w.id])))
+                    body.append(z3.Or(nwrote(w), le(self.clk[w.id], sv), self.lt(rc, self.clk[w.id])))
                 cons.append(z3.Implies(ge, z3.And(*body)))
         if not width:
             for x in self.cvar.values():
@@ -472,9 +508,17 @@ class Encoding:
             for e in ws:
                 d = ex.as_bv(e.info[1], size * 8)
                 total = total + z3.If(self.g(e.guard), d if e.info[0] == 'add' else -d, zero)
+            fin_ws = [e for e in evs if e.thread == 0 and e.kind in ('W', 'U', 'C')]
+            if not all(e.kind == 'U' and isinstance(e.info, tuple) and e.info[0] in ('add', 'sub') for e in fin_ws):
+                continue
             for r in evs:
-                if r.thread == 0 and r.kind in ('R', 'U', 'C') and not r.local and self.own_source(r) is None:
-                    cons.append(z3.Implies(self.g(r.guard), ex.as_bv(r.rval, size * 8) == total))
+                if r.thread == 0 and r.kind in ('R', 'U', 'C') and not r.local:
+                    tot = total
+                    for e in fin_ws:
+                        if e.po < r.po:
+                            d = ex.as_bv(e.info[1], size * 8)
+                            tot = tot + z3.If(self.g(e.guard), d if e.info[0] == 'add' else -d, zero)
+                    cons.append(z3.Implies(self.g(r.guard), ex.as_bv(r.rval, size * 8) == tot))
                     self.nlemmas += 1
         self.cons = cons
         self.nasserts = len(cons)
@@ -484,42 +528,13 @@ class Encoding:
         self.B = B
         return S
 
-    def own_source(self, r):
-        """Last event of r's own thread before r (on r's path) that definitely wrote r.addr."""
-        p = self.pred[r.id]
-        while p is not None:
-            e = self.events[p]
-            if e.addr == r.addr and e.kind in ('W', 'U', 'C'):
-                if e.kind == 'C':
-                    # a CAS writes only on success. r's guard decides: success branch pins succ
-                    s = e.succ
-                    if isinstance(s, int):
-                        if s:
-                            return e
-                    else:
-                        # succ is symbolic: look whether r's guard contains succ positively
-                        sb = ex.as_bool(s)
-                        pos = any(z3.eq(c, sb) for c in r.guard)
-                        neg = any(z3.eq(c, z3.Not(sb)) for c in r.guard)
-                        if pos:
-                            return e
-                        if not neg:
-                            raise Inconclusive('internal: CAS outcome not decided on the path of a later read')
-                else:
-                    return e
-            p = self.pred[p]
-        return None
-
-    def own_value(self, r, own_src):
-        """Value r would read from its own thread's last write (or the initial memory)."""
-        if own_src is not None:
-            return own_src.wval
+    def init_value(self, r):
+        """Value of the cell before the concurrent phase (None: the object did not exist yet)."""
         st = self.base
         o = st.find_obj(r.addr)
         if o is None:
-            return None     # object allocated by another thread: no initial value
-        v = self.eng.mem_read(st, r.addr, r.size, None, o)
-        return v
+            return None
+        return self.eng.mem_read(st, r.addr, r.size, None, o)
 
     # ------------------------------------------------------------------ deciding
     def decide(self, spec, scenario, timeout_s):
@@ -564,6 +579,7 @@ class Encoding:
         verdict = 'holds'
         self.per_query = []
         self._S = S
+        self._timeout_ms = int(timeout_s * 1000)
         self._viol_terms = viol_terms
         self._items = items
         self._spec = spec
@@ -573,9 +589,9 @@ class Encoding:
         done_keys = set()
         for idx in range(len(viol_terms)):
             r2, dt, payload = results[idx]
-            self.per_query.append(dt)
             o, u = items[idx]
             key = (o[2].kind, str(o[2].ident), o[0]) if o is not None else ('engine', 'use-after-free', 0)
+            self.per_query.append((dt, key, r2))
             if r2 == 'sat':
                 if key in done_keys:
                     continue
@@ -596,8 +612,9 @@ class Encoding:
         cov = {}
         for t, lv in self.leaves.items():
             for leaf in lv:
-                for cid, g in leaf.covers.items():
-                    cov.setdefault(cid, []).append(self.g(g))
+                for cid, gl in leaf.covers.items():
+                    for g in gl:
+                        cov.setdefault(cid, []).append(self.g(g))
         for cid in spec.get('covers', []):
             gs = cov.get(cid)
             if not gs:
@@ -626,7 +643,7 @@ class Encoding:
         return {'violations': violations, 'inconclusive': inconclusive, 'covered': covered, 'missing_covers': missing,
                 'events': len(self.events), 'contended_cells': len(self.contended), 'obligations': len(viol_terms),
                 'smt_vars': self.nvars, 'smt_asserts': self.nasserts, 'smt_queries': nq,
-                'smt_s': time.time() - t0, 'verdict': verdict, 'sample': sample, 'slow_queries': sorted(self.per_query)[-6:], 'lemmas': self.nlemmas}
+                'smt_s': time.time() - t0, 'verdict': verdict, 'sample': sample, 'slow_queries': sorted(self.per_query, key=lambda x: x[0])[-8:], 'lemmas': self.nlemmas}
 
     def active_events(self, m):
         """Executed events in a global order consistent with the model: an event without its own clock
